@@ -142,11 +142,16 @@ def literal_positions(v):
             "@server (\n\tk: %s\n\tj: x\n)\n" % v + SVC]
 
 
-def lexeme_core():
+LEX_FF = ['"a\x0cb"', '"a\x0bb"', '"\x0c"', "`a\x0cb`", "`\x0b`"]
+
+
+def lexeme_core(ff=False):
     """white space (tab, blank, line break) as the content of, and inside, a string / raw string in
-    every literal position -- in every run (seeds C20-3, C20-4, C20-7)"""
+    every literal position -- in every run (seeds C20-3, C20-4, C20-7).  ff: also form feed and
+    vertical tab, which the tabwriter reads as "end of line" / "end of cell" (finding
+    C20-formfeed-inside-literal-or-comment)"""
     res = []
-    for v in LEX_WS:
+    for v in LEX_WS + (LEX_FF if ff else []):
         res += literal_positions(v)
     return res
 
